@@ -127,30 +127,26 @@ Definition is_candidate dur dt obs dflt (x : R) : Prop :=
   x = dur \/ (exists i, (0 <= i <= Int_part (dur / dt))%Z /\ x = IZR i * dt) \/
   (exists t, requested_by obs dflt t /\ x = t * dur).
 
-Theorem grid_spec dur dt obs dflt :
+(* the sorted, deduplicated candidate points (before near-duplicates are merged) *)
+Lemma candidates_spec dur dt (obs : list (option (list R))) dflt req :
   0 < dur -> 0 < dt ->
   (forall t, requested_by obs dflt t -> 0 <= t <= 1) ->
-  (dflt = None -> Forall (fun o => o <> None) obs) ->
-  exists g, get_target_times RA R_floor dur dt obs dflt = Ok g /\
-    StronglySorted Rlt g /\ hd_error g = Some 0 /\ last g 0 = dur /\
-    (forall x, In x g <-> is_candidate dur dt obs dflt x).
+  unique_observable_times obs dflt = Ok req ->
+  let S := candidates RA dur dt (Int_part (dur / dt)) req in
+  StronglySorted Rlt S /\ hd_error S = Some 0 /\ last S 0 = dur /\
+  (forall x, In x S <-> is_candidate dur dt obs dflt x) /\
+  (forall x, is_candidate dur dt obs dflt x -> 0 <= x <= dur).
 Proof.
-  intros Hdur Hdt Hreq Hfull.
-  destruct (uot_ok obs dflt Hfull) as (req & Ereq).
+  intros Hdur Hdt Hreq Ereq S.
   pose proof (uot_spec _ _ _ Ereq) as Hspec.
-  unfold get_target_times, n_steps. simpl.
-  assert (E1 : Reqb dt 0 = false) by (apply Reqb_false; lra).
-  assert (E2 : Reqb dur 0 = false) by (apply Reqb_false; lra).
-  unfold zero. simpl. rewrite E1. simpl. rewrite E2, andb_false_r, Ereq. simpl.
-  set (n := Int_part (dur / dt)).
-  eexists. split; [reflexivity|].
+  set (n := Int_part (dur / dt)) in *.
   assert (Hn : 0 <= IZR n <= dur / dt /\ (0 <= n)%Z).
   { destruct (base_Int_part (dur / dt)) as [B1 B2]. fold n in B1, B2.
     assert (0 < dur / dt) by (apply Rdiv_lt_0_compat; lra).
     assert (-1 < n)%Z by (apply lt_IZR; simpl; lra).
     split; [split; [apply IZR_le; lia|lra]|lia]. }
-  assert (Hmem : forall x, In x (target_times_of RA dur dt n req) <-> is_candidate dur dt obs dflt x).
-  { intros x. unfold target_times_of. rewrite sort_dedup_In, in_map_iff. unfold is_candidate. fold n. split.
+  assert (Hmem : forall x, In x S <-> is_candidate dur dt obs dflt x).
+  { intros x. unfold S, candidates. rewrite sort_dedup_In, in_map_iff. unfold is_candidate. fold n. split.
     - intros (t & <- & Ht). apply in_app_iff in Ht. destruct Ht as [Ht|[<-|Ht]].
       + apply grid_rel_In in Ht. destruct Ht as (i & Hi & ->). right; left. exists i. split; auto.
         simpl. field. lra.
@@ -171,8 +167,8 @@ Proof.
     - specialize (Hreq _ Ht). split; [apply Rmult_le_pos; lra|].
       replace dur with (1 * dur) at 2 by lra. apply Rmult_le_compat_r; lra. }
   pose proof (sort_dedup_sorted (map (fun t => a_mul RA t dur) (grid_rel RA dur dt n ++ one RA :: req))) as Hs.
-  fold (target_times_of RA dur dt n req) in Hs.
-  split; [exact Hs|]. split; [|split; [|exact Hmem]].
+  fold (candidates RA dur dt n req) in Hs. fold S in Hs.
+  split; [exact Hs|]. split; [|split; [|split; [exact Hmem|exact Hbnd]]].
   - apply sorted_hd; auto.
     + apply Hmem. right; left. exists 0%Z. split; [lia|simpl; lra].
     + intros x Hx. apply Hmem in Hx. apply Hbnd in Hx. lra.
@@ -181,7 +177,207 @@ Proof.
     + intros x Hx. apply Hmem in Hx. apply Hbnd in Hx. lra.
 Qed.
 
-(* dt above the duration: only 0, the duration and the requested times *)
+(* ---- merging of near-duplicates (fix of finding F-08) ------------------------------------- *)
+Fixpoint adjP (P : R -> R -> Prop) (l : list R) : Prop :=
+  match l with
+  | a :: t => match t with b :: _ => P a b /\ adjP P t | [] => True end
+  | [] => True
+  end.
+
+Section Merge.
+Variables dur tau : R.
+Hypothesis Hdur : 0 < dur.
+Hypothesis Htau : 0 < tau.
+
+Definition sepP (a b : R) : Prop := a + tau <= b.
+Local Notation rel := (map (fun t => t / dur)).
+
+Lemma div_mono a b : a <= b -> a / dur <= b / dur.
+Proof. intros. unfold Rdiv. apply Rmult_le_compat_r; [apply Rlt_le, Rinv_0_lt_compat; lra|lra]. Qed.
+Lemma div_mono_lt a b : a / dur < b / dur -> a < b.
+Proof.
+  intros H. apply (Rmult_lt_reg_r (/ dur)); [apply Rinv_0_lt_compat; lra|]. exact H.
+Qed.
+
+Lemma sorted_drop2 a b l : StronglySorted Rlt (a :: b :: l) -> StronglySorted Rlt (a :: l).
+Proof.
+  intros S. inversion S as [|? ? S1 F1]; subst. inversion S1; subst. inversion F1; subst.
+  constructor; auto.
+Qed.
+
+Lemma merge_from_spec : forall l prev, StronglySorted Rlt (prev :: l) ->
+  (forall x, In x (merge_from RA tau dur prev l) -> In x l) /\
+  adjP sepP (rel (prev :: merge_from RA tau dur prev l)) /\
+  (forall x, In x (prev :: l) ->
+     exists g, In g (prev :: merge_from RA tau dur prev l) /\ g <= x /\ x / dur - g / dur < tau).
+Proof.
+  induction l as [|t r IH]; intros prev S.
+  - simpl. split; [tauto|]. split; [exact I|]. intros x [<-|[]]. exists prev.
+    split; [now left|]. split; [lra|]. rewrite Rminus_diag_eq by reflexivity. exact Htau.
+  - assert (Hpt : prev < t).
+    { inversion S as [|? ? _ F]; subst. now inversion F. }
+    simpl merge_from. change (a_ltb RA (a_sub RA (a_div RA t dur) (a_div RA prev dur)) tau)
+      with (Rltb (t / dur - prev / dur) tau).
+    destruct (Rltb (t / dur - prev / dur) tau) eqn:E.
+    + apply Rltb_true in E. destruct (IH prev (sorted_drop2 _ _ _ S)) as (A & B & C).
+      split; [intros x Hx; right; now apply A|]. split; [exact B|].
+      intros x [<-|[<-|Hx]].
+      * apply C. now left.
+      * exists prev. split; [now left|]. split; [lra|exact E].
+      * apply C. now right.
+    + apply Rltb_false in E. inversion S as [|? ? S1 _]; subst.
+      destruct (IH t S1) as (A & B & C).
+      split; [intros x [<-|Hx]; [now left|right; now apply A]|]. split.
+      * change (rel (prev :: t :: merge_from RA tau dur t r))
+          with (prev / dur :: rel (t :: merge_from RA tau dur t r)).
+        simpl. split; [unfold sepP; lra|exact B].
+      * intros x [<-|Hx].
+        -- exists prev. split; [now left|]. split; [lra|]. rewrite Rminus_diag_eq by reflexivity. exact Htau.
+        -- destruct (C x Hx) as (g & Hg & H1 & H2). exists g. split; [now right|auto].
+Qed.
+
+Lemma set_last_In (d : R) : forall (l : list R) (x : R), In x (set_last d l) -> x = d \/ In x l.
+Proof.
+  induction l as [|a r IH]; intros x H; [destruct H|]. destruct r as [|b r'].
+  - destruct H as [<-|[]]. now left.
+  - change (set_last d (a :: b :: r')) with (a :: set_last d (b :: r')) in H.
+    destruct H as [<-|H]; [right; now left|]. destruct (IH x H); auto. right. now right.
+Qed.
+
+Lemma set_last_last (d d0 : R) : forall l : list R, l <> [] -> last (set_last d l) d0 = d.
+Proof.
+  induction l as [|a r IH]; intros H; [congruence|]. destruct r as [|b r']; [reflexivity|].
+  change (set_last d (a :: b :: r')) with (a :: set_last d (b :: r')).
+  assert (E : set_last d (b :: r') <> []) by (destruct r'; discriminate).
+  destruct (set_last d (b :: r')) eqn:E2; [congruence|]. rewrite <- E2 in *.
+  change (last (a :: set_last d (b :: r')) d0) with
+    (match set_last d (b :: r') with [] => a | _ :: _ => last (set_last d (b :: r')) d0 end).
+  rewrite E2. rewrite <- E2. apply IH. discriminate.
+Qed.
+
+Lemma set_last_In_d (d : R) : forall l : list R, l <> [] -> In d (set_last d l).
+Proof.
+  induction l as [|a r IH]; intros H; [congruence|]. destruct r as [|b r']; [now left|].
+  change (set_last d (a :: b :: r')) with (a :: set_last d (b :: r')). right. apply IH. discriminate.
+Qed.
+
+Lemma set_last_sep (d : R) : forall l : list R, (forall x, In x l -> x <= d) ->
+  adjP sepP (rel l) -> adjP sepP (rel (set_last d l)).
+Proof.
+  induction l as [|a r IH]; intros Hb H; [exact I|]. destruct r as [|b r']; [exact I|].
+  change (set_last d (a :: b :: r')) with (a :: set_last d (b :: r')).
+  simpl in H. destruct H as [H1 H2].
+  assert (IH' : adjP sepP (rel (set_last d (b :: r')))).
+  { apply IH; [intros x Hx; apply Hb; now right|exact H2]. }
+  destruct r' as [|c r''].
+  - simpl. split; [|exact I]. unfold sepP in *.
+    assert (b / dur <= d / dur) by (apply div_mono, Hb; right; now left). lra.
+  - change (set_last d (b :: c :: r'')) with (b :: set_last d (c :: r'')) in *.
+    simpl. split; [exact H1|exact IH'].
+Qed.
+
+Lemma set_last_keep (d : R) : forall (l : list R) (g : R), StronglySorted Rlt l -> In g l ->
+  In g (set_last d l) \/ (forall y, In y l -> y <= g).
+Proof.
+  induction l as [|a r IH]; intros g S Hg; [destruct Hg|]. destruct r as [|b r'].
+  - right. destruct Hg as [<-|[]]. intros y [<-|[]]. lra.
+  - change (set_last d (a :: b :: r')) with (a :: set_last d (b :: r')).
+    inversion S as [|? ? S1 F]; subst. destruct Hg as [<-|Hg]; [left; now left|].
+    destruct (IH g S1 Hg) as [H|H]; [left; now right|]. right.
+    intros y [<-|Hy]; [|now apply H]. rewrite Forall_forall in F. specialize (F g Hg). lra.
+Qed.
+
+Lemma adjP_sorted : forall l, adjP sepP (rel l) -> StronglySorted Rlt l.
+Proof.
+  intros l H. apply Sorted_StronglySorted; [intros x y z; apply Rlt_trans|].
+  induction l as [|a r IH]; [constructor|]. destruct r as [|b r'].
+  - constructor; constructor.
+  - simpl in H. destruct H as [H1 H2]. constructor; [apply IH; exact H2|].
+    constructor. apply div_mono_lt. unfold sepP in H1. lra.
+Qed.
+
+(* The merged grid of a sorted candidate list s0 :: r that ends at d (with s0 < d): separated,
+   made of candidates, covers every candidate within tau, keeps s0 first and d last. *)
+Lemma last_In : forall (l : list R) (a d : R), In (last (a :: l) d) (a :: l).
+Proof.
+  induction l as [|b l IH]; intros a d; [now left|].
+  change (last (a :: b :: l) d) with (last (b :: l) d). right. apply IH.
+Qed.
+
+Lemma merged_spec s0 r d : tau < 1 -> s0 = 0 -> d = dur ->
+  StronglySorted Rlt (s0 :: r) -> last (s0 :: r) 0 = d -> (forall x, In x (s0 :: r) -> 0 <= x <= d) ->
+  let G := set_last d (merge_close RA tau dur (s0 :: r)) in
+  hd_error G = Some s0 /\ last G 0 = d /\ adjP sepP (rel G) /\
+  (forall x, In x G -> In x (s0 :: r)) /\
+  (forall x, In x (s0 :: r) -> exists g, In g G /\ Rabs (x / dur - g / dur) < tau).
+Proof.
+  intros Ht1 -> -> S Hlast Hb G.
+  destruct (merge_from_spec r 0 S) as (A & B & C).
+  set (m := merge_from RA tau dur 0 r) in *.
+  assert (Hd_in : In dur (0 :: r)).
+  { rewrite <- Hlast. apply last_In. }
+  assert (SM : StronglySorted Rlt (0 :: m)) by (apply adjP_sorted; exact B).
+  assert (HM : forall x, In x (0 :: m) -> In x (0 :: r)).
+  { intros x [<-|Hx]; [now left|right; now apply A]. }
+  destruct (C dur Hd_in) as (gd & Hgd & Hgd1 & Hgd2).
+  assert (Hdd : dur / dur = 1) by (field; lra).
+  assert (Hm : m <> []).
+  { intros E. rewrite E in Hgd. destruct Hgd as [<-|[]]. unfold Rdiv in Hgd2. rewrite Rmult_0_l in Hgd2.
+    fold (dur / dur) in Hgd2. lra. }
+  unfold G, merge_close. fold m.
+  destruct m as [|y m'] eqn:Em; [congruence|]. rewrite <- Em in *.
+  assert (EG : set_last dur (0 :: m) = 0 :: set_last dur m) by (rewrite Em; reflexivity).
+  rewrite EG. split; [reflexivity|]. rewrite <- EG.
+  split; [apply set_last_last; discriminate|].
+  split; [apply set_last_sep; [intros x Hx; apply (Hb x), HM, Hx|exact B]|].
+  split.
+  - intros x Hx. apply set_last_In in Hx. destruct Hx as [->|Hx]; [exact Hd_in|now apply HM].
+  - intros x Hx. destruct (C x Hx) as (g & Hg & Hg1 & Hg2).
+    destruct (set_last_keep dur (0 :: m) g SM Hg) as [Hk|Hmax].
+    + exists g. split; [exact Hk|]. rewrite Rabs_right; [exact Hg2|].
+      assert (g / dur <= x / dur) by now apply div_mono. lra.
+    + exists dur. split.
+      * apply set_last_In_d. discriminate.
+      * specialize (Hmax gd Hgd). specialize (Hb x Hx).
+        assert (gd / dur <= g / dur) by now apply div_mono.
+        assert (g / dur <= x / dur) by now apply div_mono.
+        assert (x / dur <= dur / dur) by (apply div_mono; lra).
+        rewrite Rabs_left1 by lra. lra.
+Qed.
+End Merge.
+
+(* The grid after the F-08 fix. *)
+Theorem grid_spec tolu dur dt (obs : list (option (list R))) dflt :
+  0 < dur -> 0 < dt -> 0 < tolu < 1 ->
+  (forall t, requested_by obs dflt t -> 0 <= t <= 1) ->
+  (dflt = None -> Forall (fun o => o <> None) obs) ->
+  exists g, get_target_times RA R_floor tolu dur dt obs dflt = Ok g /\
+    StronglySorted Rlt g /\ hd_error g = Some 0 /\ last g 0 = dur /\
+    adjP (fun a b => a + tolu <= b) (map (fun t => t / dur) g) /\
+    (forall x, In x g -> is_candidate dur dt obs dflt x /\ 0 <= x <= dur) /\
+    (forall x, is_candidate dur dt obs dflt x ->
+       exists y, In y g /\ Rabs (x / dur - y / dur) < tolu).
+Proof.
+  intros Hdur Hdt [Hu0 Hu1] Hreq Hfull.
+  destruct (uot_ok obs dflt Hfull) as (req & Ereq).
+  destruct (candidates_spec dur dt obs dflt req Hdur Hdt Hreq Ereq) as (S1 & S2 & S3 & S4 & S5).
+  unfold get_target_times, n_steps. simpl.
+  assert (E1 : Reqb dt 0 = false) by (apply Reqb_false; lra).
+  assert (E2 : Reqb dur 0 = false) by (apply Reqb_false; lra).
+  unfold zero. simpl. rewrite E1. simpl. rewrite E2, andb_false_r, Ereq. simpl.
+  unfold target_times_of.
+  set (S := candidates RA dur dt (Int_part (dur / dt)) req) in *.
+  destruct S as [|s0 r] eqn:ES; [discriminate|]. simpl in S2. inversion S2; subst s0.
+  destruct (merged_spec dur tolu Hdur Hu0 0 r dur Hu1 eq_refl eq_refl S1 S3) as (G1 & G2 & G3 & G4 & G5).
+  { intros x Hx. apply S5, S4, Hx. }
+  set (G := set_last dur (merge_close RA tolu dur (0 :: r))) in *.
+  destruct G as [|g0 G'] eqn:EG; [discriminate|].
+  eexists. split; [reflexivity|]. rewrite <- EG in *. clear EG.
+  split; [apply (adjP_sorted dur tolu Hdur Hu0); exact G3|].
+  split; [exact G1|]. split; [exact G2|]. split; [exact G3|]. split.
+  - intros x Hx. assert (C : is_candidate dur dt obs dflt x) by (apply S4, G4, Hx). split; [exact C|apply S5, C].
+  - intros x Hx. apply G5, S4, Hx.
+Qed.
 Theorem grid_spec_large_dt dur dt obs dflt x :
   0 < dur -> dur < dt ->
   (is_candidate dur dt obs dflt x <->
@@ -314,7 +510,8 @@ Proof.
   - destruct (eq_dec t x); simpl; rewrite IHk; destruct (eq_dec t x); congruence.
 Qed.
 
-(* ---- binary64: the intent degenerates (finding F-08) -------------------------------------- *)
+
+(* ---- binary64: the former witness of finding F-08 now passes (regression) ------------------ *)
 Section FloatWitness.
 Import PrimFloat.
 Local Open Scope float_scope.
@@ -325,20 +522,19 @@ Definition w08_dur := 10.
 Definition w08_dt := 0x1.999999999999ap-4.     (* 0.1  *)
 Definition w08_ts := [0x1.eb851eb851eb8p-6; 1]. (* 0.03, 1.0 *)
 
-Lemma grid_near_duplicates_float :
+Lemma f08_witness_merged_float :
   exists g,
-    PrimFloat.ltb 0 w08_dur = true /\ PrimFloat.ltb 0 w08_dt = true /\
-    validate_times float_arith w_tolu w08_ts = Ok tt /\
-    get_target_times float_arith float_floor w08_dur w08_dt [Some w08_ts] (Some [1]) = Ok g /\
-    length g = 102%nat /\
-    PrimFloat.ltb (min_rel_gap w08_dur g 1) 0x1p-52 = true /\
-    (forall mps, run float_arith float_floor w_tolb w_tol0 w_tolu mps g (length g - 1)
-                     [Some w08_ts] (Some [1]) = Err 20%Z).
+    get_target_times float_arith float_floor w_tolu w08_dur w08_dt [Some w08_ts] (Some [1]) = Ok g /\
+    length g = 101%nat /\
+    PrimFloat.ltb (min_rel_gap w08_dur g 1) w_tolu = false /\
+    (forall mps, exists st,
+       run float_arith float_floor w_tolb w_tol0 w_tolu mps g (length g - 1)
+           [Some w08_ts] (Some [1]) = Ok st /\
+       map fst (rev (nth 0 (r_recs st) [])) = w08_ts).
 Proof.
   eexists. split; [vm_compute; reflexivity|]. split; [vm_compute; reflexivity|].
-  split; [vm_compute; reflexivity|]. split; [vm_compute; reflexivity|].
-  split; [vm_compute; reflexivity|]. split; [vm_compute; reflexivity|].
-  intros [|]; vm_compute; reflexivity.
+  split; [vm_compute; reflexivity|].
+  intros [|]; eexists; (split; [vm_compute; reflexivity|vm_compute; reflexivity]).
 Qed.
 End FloatWitness.
 
